@@ -161,12 +161,23 @@ def tree_state(root):
 _MMAP = re.compile(r"mmap\(NULL, (\d+),.*MAP_ANONYMOUS")
 
 
-def serve_bytes(data, root, strace=False):
+_HANGS = {"confirmed": 0}
+
+
+def serve_bytes(data, root, strace=False, redo=None):
     cmd = f"ulimit -v 600000; exec timeout 8 '{CFG['copia']}' serve '{root}'"
     tr = os.path.join(CFG["dir"], "strace.out")
     if strace:
         cmd = f"ulimit -v 600000; exec timeout 30 strace -f -o '{tr}' -e trace=mmap,mremap '{CFG['copia']}' serve '{root}'"
     p = subprocess.run(["sh", "-c", cmd], input=data, stdout=subprocess.PIPE, stderr=subprocess.PIPE, env=dict(os.environ, RUST_LOG="off"), timeout=90)
+    if p.returncode == 124 and not strace and redo is not None and _HANGS["confirmed"] < 2:
+        # "still running after its input was closed" must not be an artefact of a loaded machine: the session is repeated
+        # on a restored tree with five times the limit before the time-out is believed (twice per worker at most)
+        redo()
+        cmd2 = cmd.replace("timeout 8 ", "timeout 40 ")
+        p = subprocess.run(["sh", "-c", cmd2], input=data, stdout=subprocess.PIPE, stderr=subprocess.PIPE, env=dict(os.environ, RUST_LOG="off"), timeout=200)
+        if p.returncode == 124:
+            _HANGS["confirmed"] += 1          # a real hang: later time-outs in this worker are believed at once
     sizes = []
     if strace and os.path.exists(tr):
         for ln in open(tr, errors="replace"):
@@ -213,7 +224,7 @@ def run_case(job):
         data = bytes(b)
     root = fresh_root()
     want_strace = any(x.startswith("oversize") or x in ("huge_inner_len", "deep_nesting") for x in case["pieces"]) and mode == "session"
-    p, sizes = serve_bytes(data, root, strace=want_strace)
+    p, sizes = serve_bytes(data, root, strace=want_strace, redo=fresh_root)
     code = p.returncode
     signaled = code < 0 or code > 128 and code != 124
     replies = parse_replies(p.stdout)
